@@ -1379,6 +1379,7 @@ impl Bitboard {
 
         self.make(result);
         if !self.is_valid() {
+            self.unmake(result);
             return Err(MoveIsNotValid(result));
         }
 
